@@ -252,6 +252,9 @@ class Extractor:
             return self._struct(s)
         if fn is not None and '::' in s and s.split('::')[-1] in fn.aliases and fn.aliases[s.split('::')[-1]] != s:
             return self.resolve_str(fn.aliases[s.split('::')[-1]], fn).base
+        m = re.match(r'^std::array<(.+), \d+>::(value_type|reference|const_reference)$', s)
+        if m:
+            return self.resolve_str(m.group(1), fn).base
         m = re.match(r'^std::array<(.+), (\d+)>$', s)
         if m:
             return 'ARRAY<%s,%s>' % (self.resolve_str(m.group(1), fn).base, m.group(2))
@@ -1063,6 +1066,21 @@ class FnTranslator:
             return '__CPROVER_assert(%s, "%s")' % (x, name)
         if decl.get('kind') in ('CXXMethodDecl', 'CXXConversionDecl') and decl.get('storageClass') != 'static':
             return self.member_call(decl, ch[0], args, n)
+        q = self.ast.qualname.get(decl.get('id'), '')
+        if q == 'std' or q.startswith('std::'):
+            # iterator algebra over a table: std::array<T,N>::iterator is T*, so these are plain pointer operations.
+            # std::lower_bound itself is external (assumed contract: the result lies in [first, last]).
+            if name == 'begin' and len(args) == 1 and self.ty(args[0]).base.startswith('ARRAY<'):
+                elem = re.match(r'ARRAY<(.+),(\d+)>', self.ty(args[0]).base).group(1)
+                return '((%s *)&%s[0])' % (elem, self.expr(args[0]))
+            if name == 'next' and len(args) == 2 and self.ty(args[0]).ptr == 1:
+                return '(%s + %s)' % (self.expr(args[0]), self.expr(args[1]))
+            if name == 'distance' and len(args) == 2 and self.ty(args[0]).ptr == 1:
+                return '((long)(%s - %s))' % (self.expr(args[1]), self.expr(args[0]))
+            if name == 'lower_bound' and len(args) == 3 and self.ty(args[0]).ptr == 1 and self.ty(args[0]).base in SIZEOF:
+                h = 'vf_lower_bound_' + self.ty(args[0]).base.replace(' ', '_')
+                self.ex.externals.add(h)
+                return '%s(%s, %s, %s)' % (h, self.expr(args[0]), self.expr(args[1]), self.expr(args[2]))
         if name == 'sqrt' and decl.get('mangledName') == 'sqrt' and decl['type']['qualType'].startswith('double (double)'):
             # the C library's sqrt (std::sqrt(double) is `using ::sqrt`): external, assumed contract
             self.ex.externals.add('vf_sqrt')
